@@ -3,8 +3,8 @@ import subprocess, json
 from vlib import common, coq, gobuild
 from vlib.common import coq_str, coq_bool, coq_list
 
-THEOREMS = ["C07_page_bound", "C07_unpaginated_complete", "C07_unpaginated_refines_partial", "C07_paginated_refines", "C07_pagination_complete", "C07_order_refuted",
-            "C07_pagination_cycle_refuted"]
+THEOREMS = ["C07_page_bound", "C07_unpaginated_complete", "C07_unpaginated_refines_partial", "C07_paginated_refines", "C07_pagination_complete", "C07_delimited_refines", "C07_delimited_pagination_complete", "C07_folder_refines", "C07_bookkeeping_prefix_empty", "C07_order_refuted",
+            "C07_pagination_cycle_refuted", "C07_keyless_directory_refuted"]
 TARGETS = ["Properties/C07.vo", "Check/WalkCheck.vo", "Model/ListApi.vo"]
 SEGS = ["a", "b", "a-", "a.x", "ab", "c", ".sgwtmp", "a!", "d", "b b", "A"]
 
@@ -384,6 +384,9 @@ def run_http(chk, built, tref, treedefs):
                 if venabled:
                     cl.req("PUT", "/" + bucket, query={"versioning": ""}, body=b"<VersioningConfiguration><Status>Enabled</Status></VersioningConfiguration>")
                 keys = rnd.sample(["docs/2024/q1/report.txt", "docs/2024/q2.txt", "docs/readme", "a/b/c/d/e", "a/b/x", "top", "dir/", "dir/sub/", "z/y/"], rnd.randrange(3, 8))
+                if hidx % 2 == 0:
+                    # a key in the gateway's bookkeeping namespace: refused, or listed like any other acknowledged key
+                    keys.insert(rnd.randrange(len(keys) + 1), rnd.choice([".sgwtmp/x", ".sgwtmp/multipart/y", ".sgwtmp/"]))
                 hist, vids = [], {}
                 for k in keys:
                     for _ in range(rnd.choice([1, 1, 2])):
@@ -463,6 +466,26 @@ def run_http(chk, built, tref, treedefs):
                                      {"config": label, "parked_at": at, "put": target, "query": q, "keys": keys, "stray": stray, "missing": missing})
                             break
                     if target not in before: A.req("DELETE", "/inflight/" + target)
+            # a multipart upload with staged parts: no prefix makes its bookkeeping files appear in a listing
+            r0 = A.req("POST", "/inflight/dir/big", query={"uploads": ""}); uid = r0.xml().findtext("UploadId") if r0.status == 200 and r0.xml() is not None else ""
+            A.req("PUT", "/inflight/dir/big", query={"partNumber": "1", "uploadId": uid}, body=b"staged-part-data")
+            staged = []
+            for dp, dn, fn in os.walk(os.path.join(site.root, "inflight", ".sgwtmp")):
+                staged += [os.path.relpath(os.path.join(dp, x), os.path.join(site.root, "inflight")) for x in fn + dn]
+            pres = sorted({".sgwtmp/", ".sgwtmp/multipart/", ".sgwtmp/m"} | {os.path.dirname(x) + "/" for x in staged} | set(staged))
+            for pre in pres:
+                for q in ({"prefix": pre}, {"list-type": "2", "prefix": pre}, {"list-type": "2", "prefix": pre, "delimiter": "/"}, {"versions": "", "prefix": pre}):
+                    r = B.req("GET", "/inflight", query=q)
+                    x = r.xml() if r.status == 200 else None
+                    names = None if x is None else sorted([c.findtext("Key") for c in x.findall("Contents")] + [c.findtext("Prefix") for c in x.findall("CommonPrefixes")] +
+                                                          [c.findtext("Key") for c in x.findall("Version")])
+                    chk.case(("bookkeeping-prefix", label, pre, tuple(sorted(q))), True); chk.traces += 1
+                    chk.count("bookkeeping-prefix:%s" % ("empty" if names == [] else "status-%d" % r.status if names is None else "listed"))
+                    if names is None or names:
+                        chk.fail("c07:bookkeeping-names-listed", "[%s] with a part of an upload staged, the listing %s shows %r: internal bookkeeping names" % (label, q, names),
+                                 {"config": label, "query": q, "listed": names, "staged_files": staged[:6]})
+                        break
+            A.req("DELETE", "/inflight/dir/big", query={"uploadId": uid})
             chk.tie("gateway still running after the in-flight listings (%s)" % label, g.alive(), g.log_tail())
     chk.samples.append(lmeta[len(lmeta) // 2])
     return lterms, lmeta
